@@ -8,6 +8,7 @@ import (
 	"net"
 	"net/http"
 	"net/url"
+	"path"
 	"runtime/debug"
 	"strings"
 	"sync"
@@ -215,6 +216,7 @@ func propC12(c c12Case) *Outcome {
 	noSlashAlias := !strings.HasPrefix(c.Name, "/") && ((registeredUnary["/"+c.Name] && !c.ViaStream) || (registeredStream["/"+c.Name] && c.ViaStream))
 	o.NonTrivial = !exact || (isHTTP(c.Carrier) && c.Base != "/")
 	if isHTTP(c.Carrier) {
+		o.class("base-canonical=%v", c.Base == "/" || path.Clean(c.Base) == strings.TrimSuffix(c.Base, "/"))
 		o.class("base-segments=%d", strings.Count(strings.Trim(c.Base, "/"), "/")+btoi(strings.Trim(c.Base, "/") != ""))
 	}
 	// generated stubs hand NewStream the service's own StreamDesc, handler and all; which handler runs is
@@ -386,6 +388,22 @@ func btoi(b bool) int {
 var c12SvcNames = []string{"a.b.Svc", "a.b.Svc2", "x.Y", "a.b"}
 var c12MethodNames = []string{"M", "Get", "GetAll", "m", "M2", "Svc"}
 
+// c12NthSlash replaces the i-th '/' of s (0-based) by repl; a repl that ends in '/' in front of
+// nothing (the last slash of a base without trailing slash cannot occur: every '/' of such a base is
+// followed by a segment) keeps the path absolute.
+func c12NthSlash(s string, i int, repl string) string {
+	n := 0
+	for k := 0; k < len(s); k++ {
+		if s[k] == '/' {
+			if n == i {
+				return s[:k] + repl + s[k+1:]
+			}
+			n++
+		}
+	}
+	return s
+}
+
 func genC12(t *rapid.T) c12Case {
 	c := c12Case{Carrier: rapid.SampledFrom(sutCarriers).Draw(t, "carrier"), Base: "/"}
 	ns := rapid.IntRange(1, 3).Draw(t, "nsvc")
@@ -414,6 +432,21 @@ func genC12(t *rapid.T) c12Case {
 			b += "/" + rapid.OneOf(rapid.StringMatching(`[A-Za-z0-9._~+:@!-]{1,6}`), rapid.SampledFrom([]string{"é", "a.b", "~x", "a+b:c", "rpc", "api", "v1"})).Filter(func(s string) bool { return s != "." && s != ".." }).Draw(t, "seg")
 		}
 		if b == "" || rapid.Bool().Draw(t, "trailing") {
+			b += "/"
+		}
+		// the same base path in a non-canonical spelling (both sides get the same string; the
+		// server cleans it when it registers, so the client has to arrive at the same place)
+		switch rapid.IntRange(0, 9).Draw(t, "basenoise") {
+		case 0:
+			i := rapid.IntRange(0, strings.Count(b, "/")-1).Draw(t, "noiseat")
+			b = c12NthSlash(b, i, "//")
+		case 1:
+			i := rapid.IntRange(0, strings.Count(b, "/")-1).Draw(t, "noiseat")
+			b = c12NthSlash(b, i, "/./")
+		case 2:
+			i := rapid.IntRange(0, strings.Count(b, "/")-1).Draw(t, "noiseat")
+			b = c12NthSlash(b, i, "/zz/../")
+		case 3:
 			b += "/"
 		}
 		c.Base = b
